@@ -256,12 +256,22 @@ Definition m_listop (st : mst) (name : bytes) (o : lop) : res (mst * option N) :
           (* an untracked list (w = false) is a plain Python list: the operation just happens.
              (Plain lists that are the very object held by _defaults never get here: the places
              that would store one yield Oos, see setup_own / conf_changed_item.) *)
-          if negb on_modify_before_op then Oos else
-          do st2 <- (if w && is_wrapped o then mark_unsaved st1 rn else Ok st1);
-          match py_list_op o l with
-          | inl l' => Ok (with_config st2 (dset rn (CList w l') (m_config st2)), None)
-          | inr k => Ok (st2, Some k)
-          end
+          if on_modify_before_op then
+            (* _wrapture: on_modify(), then the list method *)
+            do st2 <- (if w && is_wrapped o then mark_unsaved st1 rn else Ok st1);
+            match py_list_op o l with
+            | inl l' => Ok (with_config st2 (dset rn (CList w l') (m_config st2)), None)
+            | inr k => Ok (st2, Some k)
+            end
+          else
+            (* _wrapture: the list method, then (if it returned) on_modify() *)
+            match py_list_op o l with
+            | inl l' =>
+                let st2 := with_config st1 (dset rn (CList w l') (m_config st1)) in
+                do st3 <- (if w && is_wrapped o then mark_unsaved st2 rn else Ok st2);
+                Ok (st3, None)
+            | inr k => Ok (st1, Some k)
+            end
       | GConfig (CAtom _) | GDefault (DStr _) =>
           (* a str / int / bool / float has none of the list methods; item assignment is a TypeError *)
           Ok (st1, Some (match o with LSetItem _ _ => E_Type | _ => E_Attribute end))
@@ -381,7 +391,35 @@ Definition plus_to_underscore (b : bytes) : bytes := map (fun c => if Ascii.eqb 
 Definition pyval_eq_default_list (v : pyval) : bool :=
   match v with PList [AStr s] => beqb s DEFAULT_VALUE | _ => false end.
 
-Definition is_plain_atom_list (v : pyval) : bool := true.
+Definition pyval_of_dval (d : dval) : pyval :=
+  match d with DStr s => PAtom (AStr s) | DList l => PList (map AStr l) end.
+
+(* `if not isinstance(v, list): v = [v]` *)
+Definition aslist (v : pyval) : list atom := match v with PList l => l | PAtom a => [a] end.
+
+(* `parsed = defaults.get(rn, []); if not isinstance(parsed, list): parsed = parser.parse(parsed)`,
+   then handed to _ListWrapper (which copies) *)
+Definition list_default (pk : parse_kind) (d : option dval) : res (list atom) :=
+  match d with
+  | None => Ok []
+  | Some (DList dl) => Ok (map AStr dl)
+  | Some (DStr s) =>
+      do p <- parse pk (PAtom (AStr s));
+      match p with PList l => Ok l | PAtom _ => Oos end
+  end.
+
+(* `initial` of the *PortLines branch of _do_setup, before it is made a list *)
+Definition ports_initial (store : list (bytes * list bytes)) (defaults : list (bytes * dval)) (base : bytes) : pyval :=
+  let v := getconf_value (store_get store base) in
+  if pyval_is_str v DEFAULT_VALUE || pyval_is_str v auto_str then
+    match dget base defaults with
+    | Some d => pyval_of_dval d
+    | None =>
+        (* get_conf_single('__<X>') *)
+        let d := getconf_value (store_get store (bs "__" ++ base)) in
+        if pyval_is_str d [] || pyval_is_str d DEFAULT_VALUE then PList [] else d
+    end
+  else v.
 
 (* the port list a row "<X>PortLines" announces *)
 Definition setup_ports (store : list (bytes * list bytes)) (st : mst) (name : bytes) : res mst :=
@@ -393,23 +431,8 @@ Definition setup_ports (store : list (bytes * list bytes)) (st : mst) (name : by
     | Some sty =>
         let stp := {| m_parsers := dset rn sty (m_parsers st); m_listp := m_listp st ++ [rn];
                       m_defaults := m_defaults st; m_config := m_config st; m_unsaved := m_unsaved st |} in
-        let v := getconf_value (store_get store base) in
-        do initial <-
-          (if pyval_is_str v DEFAULT_VALUE || pyval_is_str v auto_str then
-             match dget base (m_defaults stp) with
-             | Some (DStr s) => Ok (map (fun c => AStr [c]) s)          (* list('9050') *)
-             | Some (DList l) => Ok (map AStr l)
-             | None =>
-                 match getconf_value (store_get store (bs "__" ++ base)) with
-                 | PAtom (AStr s) => Ok (match s with [] => [] | _ => [AStr s] end)
-                 | _ => Oos
-                 end
-             end
-           else match v with
-                | PAtom a => Ok [a]
-                | PList _ => Oos              (* a list inside the list: outside the value universe *)
-                end);
-        Ok (set_config stp rn (CList true initial))
+        (* one line comes back as a string, several as a list; _ListWrapper copies *)
+        Ok (set_config stp rn (CList true (aslist (ports_initial store (m_defaults st) base))))
     end
   else Ok st.
 
@@ -430,13 +453,7 @@ Definition setup_own (store : list (bytes * list bytes)) (st1 : mst) (name value
         match parsed with
         | PAtom _ => Oos
         | PList l =>
-            let l' := if pyval_eq_default_list parsed then
-                        match dget rn (m_defaults st3) with
-                        | Some (DStr s) => [AStr s]
-                        | Some (DList dl) => map AStr dl
-                        | None => []
-                        end
-                      else l in
+            do l' <- (if pyval_eq_default_list parsed then list_default pk (dget rn (m_defaults st3)) else Ok l);
             Ok (set_config st3 rn (CList true l'))
         end
       else
@@ -510,7 +527,8 @@ Definition kw_step (s : list (bytes * kwval) * option bytes * bytes) (line : byt
       match key with
       | None => (dset (strip line) (KwStr DEFAULT_VALUE) rtn, key, value)
       | Some k =>
-          (dset (strip line) (KwStr DEFAULT_VALUE) (dset k (KwStr value) rtn), None, [])
+          (* accumulated like above, but the value is NOT unquoted *)
+          (dset (strip line) (KwStr DEFAULT_VALUE) (kw_add rtn k value), None, [])
       end
   end.
 
@@ -528,36 +546,39 @@ Definition event_lines (items : list (bytes * option bytes)) : list bytes :=
 Definition pyval_of_kw (v : kwval) : pyval :=
   match v with KwStr s => PAtom (AStr s) | KwList l => PList (map AStr l) end.
 
-(* one (k, v) of conf.items(); result: new state, and whether a ValueError/TypeError was swallowed *)
+(* the value _conf_changed computes for an option that has a parser (inside its try block) *)
+Definition conf_changed_value (st : mst) (real_name : bytes) (ty : tyinfo) (v : pyval) : res cval :=
+  let '(pk, _, il) := ty in
+  if mem_bytes real_name (m_listp st) && negb il then
+    (* a port list: its lines are kept as they are *)
+    let v1 := if pyval_is_str v DEFAULT_VALUE
+              then match dget real_name (m_defaults st) with Some d => pyval_of_dval d | None => PList [] end
+              else v in
+    Ok (CList true (aslist v1))
+  else if il then
+    do parsed <- parse pk v;
+    match parsed with
+    | PAtom _ => Oos
+    | PList l =>
+        do l' <- (if pyval_eq_default_list parsed then list_default pk (dget real_name (m_defaults st)) else Ok l);
+        Ok (CList true l')
+    end
+  else if negb (pyval_is_str v DEFAULT_VALUE) then
+    do parsed <- parse pk v; Ok (cval_of_pyval false parsed)
+  else match dget real_name (m_defaults st) with
+       | Some (DStr s) => do parsed <- parse pk (PAtom (AStr s)); Ok (cval_of_pyval false parsed)
+       | Some (DList dl) => Oos       (* the list object of _defaults itself: shared, not modelled *)
+       | None => Ok (cval_of_pyval false v)
+       end.
+
+(* one (k, v) of conf.items(); a ValueError/TypeError is recorded and re-raised after the loop *)
 Definition conf_changed_item (st : mst) (kv : bytes * kwval) : res mst :=
   let '(k, v0) := kv in
   let real_name := find_real_name st k in
   let v := pyval_of_kw v0 in
   match dget real_name (m_parsers st) with
-  | Some (pk, _, il) =>
-      let r : res cval :=
-        if il then
-          do parsed <- parse pk v;
-          match parsed with
-          | PAtom _ => Oos
-          | PList l =>
-              let l' := if pyval_eq_default_list parsed then
-                          match dget real_name (m_defaults st) with
-                          | Some (DStr s) => [AStr s]
-                          | Some (DList dl) => map AStr dl
-                          | None => []
-                          end
-                        else l in
-              Ok (CList true l')
-          end
-        else if negb (pyval_is_str v DEFAULT_VALUE) then
-          do parsed <- parse pk v; Ok (cval_of_pyval false parsed)
-        else match dget real_name (m_defaults st) with
-             | Some (DStr s) => do parsed <- parse pk (PAtom (AStr s)); Ok (cval_of_pyval false parsed)
-             | Some (DList dl) => Oos       (* the list object of _defaults itself: shared, not modelled *)
-             | None => Ok (cval_of_pyval false v)
-             end in
-      match r with
+  | Some ty =>
+      match conf_changed_value st real_name ty v with
       | Ok cv => Ok (set_config st real_name cv)
       | Exc k' => if (k' =? E_Value) || (k' =? E_Type) then Ok st     (* recorded, re-raised at the end *)
                   else Oos                                          (* other exceptions abort the handler *)
